@@ -83,7 +83,7 @@ CHECKS += [
            "explicit d_/s_ name, a missing name needed through a precomputed symbol (closure computed independently from "
            "precomputed_symbols()), a misspelt dest/source => RuntimeError naming it; the same for every stage method of "
            "the shipped IntegratorStep subclasses on two arrays; the check runs before MegaGroup/code generation. The "
-           "implicit clause failed on the pinned tree and was repaired (fix: 7fb24fa).",
+           "implicit clause failed on the pinned tree and was repaired (fix: 7fb24fa). Group.get_array_names (union over equations and precomputed code blocks, cache) is proved; the closure of the precomputed symbols is C02's bounded check, re-run here (dep.c02.*).",
       note="getfullargspec = AST parameter names (MRO resolved); Group.get_array_names assumed to return the precomputed "
            "closure (validated natively for all 309 classes once, checked in C02); message contents checked only for the "
            "array-name and stepper-class cases; generated code itself not examined"),
@@ -97,7 +97,7 @@ CHECKS += [
            "Shepard lemmas as relational invariants (constant reproduced, result within [min,max] of contributing values, "
            "0 without neighbours); order1: b = M u is invariant for any linear field and post_loop hands (M, b, dim+1) to "
            "augmented_matrix/gj_solve; traces of Interpolator.interpolate (every source's temp_prop written, 0.0 when the "
-           "property is absent; prop[comp::4]), update_particle_arrays and update. One defect repaired (fix: abc38e9).",
+           "property is absent; prop[comp::4]), update_particle_arrays and update. One defect repaired (fix: abc38e9). augmented_matrix / gj_solve for n = 4 (C13) are re-proved here (dep.c13.*).",
       note="float = R; group order (C03), neighbours (C01), compiled = Python (C02) and gj_solve soundness (C13) assumed; "
            "the induction over the neighbour list from the per-neighbour step is the standard loop induction, not "
            "machine-checked here; SPHEvaluator/compiled evaluation not examined"),
@@ -137,7 +137,7 @@ CHECKS += [
            "delegation); Integrator.compute_accelerations refreshes pm then nnps strictly before compute iff update_nnps; "
            "trace contract of one_timestep of all 15 shipped integrators (stages increasing, one do_post_stage(c*dt,k) "
            "per stage, 0<c<=1, last c=1); write-frame of every stepper method. Bounded: get_timestep_code = body of "
-           "one_timestep (15 classes), stage-wrapper emission of the real template (real=True, py_stage before loop).",
+           "one_timestep (15 classes), stage-wrapper emission of the real template (real=True, py_stage before loop). The emitters that wire steppers into the compiled integrator (get_stepper_defs/init/loop, get_array_setup, get_py_stage_code, get_stepper_method_wrapper_names, has_stepper_loop) are executed on two steppers of different classes and compared with the documented text.",
       note="compyle/Cython/mako external; user-defined integrators only via the same checkers; frames do not follow "
            "helper calls"),
  dict(id='C05',
